@@ -26,9 +26,12 @@ Inductive case :=
          (pm2 : list (N * expr)) (mml2 : list (N * option N)) (en : list (N * Qc))
          (was_merged : bool) (mmobs : list (N * option N)) (pobs : list (N * Qc))
   (* a structural rewrite applied to a hand-built Loop: duration / windows before, and after (None: the code refused) *)
-| CRw (r : rw) (l : loop) (dur0 : Qc) (ws0 : list window) (o : option (Qc * list window))
+| CRw (spec_side : bool) (r : rw) (l : loop) (dur0 : Qc) (ws0 : list window) (o : option (Qc * list window))
   (* program built with volatile repetition counts under en, then every volatile count updated to its value under en2 *)
-| CVol (p : pt) (en en2 : list (N * Qc)) (mm : list (N * option N)) (ws2 : list window)
+  (* CRw and CVol runs are judged twice, as two cases (spec_side = false: model against implementation only;
+     spec_side = true: specification only), so that a case whose specification failure is a listed known finding
+     can never hide a disagreement between model and implementation *)
+| CVol (spec_side : bool) (p : pt) (en en2 : list (N * Qc)) (mm : list (N * option N)) (ws2 : list window)
   (* a case judged on the Python side only (flatten_and_balance / make_compatible: harness py_spec) *)
 | CPyOnly
 | CCrash.
@@ -143,14 +146,16 @@ Definition check_corr (c : case) : bool :=
           && forallb (fun x => lookup_is Qceqb pobs x (menv pm1 (menv pm (env_of en)) x)) pars
       | _ => false
       end
-  | CRw r l d0 ws0 o =>
+  | CRw true _ _ _ _ _ => true
+  | CRw false r l d0 ws0 o =>
       Qceqb (ldur l) d0 && ms_eqb (loop_windows l) ws0 &&
       match apply_rw r l, o with
       | None, None => true
       | Some l', Some (d, ws) => Qceqb (ldur l') d && ms_eqb (loop_windows l') ws
       | _, _ => false
       end
-  | CVol p en en2 mm ws2 =>
+  | CVol true _ _ _ _ _ => true
+  | CVol false p en en2 mm ws2 =>
       match updated_program p (env_of en) (env_of en2) (mm_of mm) with
       | Some l => ms_eqb (loop_windows l) ws2
       | None => false
@@ -190,9 +195,11 @@ Definition check_spec (c : case) : bool :=
       (* whatever the constructor did: names are renamed by the composition, parameters receive the composition *)
       forallb (fun k => lookup_is optN_eqb mmobs k (mcomp mml1 (mcomp mml2 Some) k)) names
       && forallb (fun x => lookup_is Qceqb pobs x (menv pm1 (menv pm2 (env_of en)) x)) pars
-  | CRw r l d0 ws0 o =>
+  | CRw false _ _ _ _ _ => true
+  | CRw true r l d0 ws0 o =>
       match o with None => true | Some (d, ws) => Qceqb d d0 && ms_eqb ws ws0 end
-  | CVol p en en2 mm ws2 => ms_eqb (denote p (env_of en2) (mm_of mm)) ws2
+  | CVol false _ _ _ _ _ => true
+  | CVol true p en en2 mm ws2 => ms_eqb (denote p (env_of en2) (mm_of mm)) ws2
   | CPyOnly => true
   | CCrash => false
   end.
